@@ -38,6 +38,9 @@ type Fault struct {
 	Only int `json:"only"`
 	// MetaFail > 0: after this request, the next MetaFail metadata requests report no leader for any partition.
 	MetaFail int `json:"metafail,omitempty"`
+	// MetaDown: after this request every metadata answer reports "leader not available" for all partitions until the
+	// scenario brings the metadata back (Scenario.MetaUpAtWave)
+	MetaDown bool `json:"metadown,omitempty"`
 }
 
 // Appended is one record in a simulated partition log.
@@ -73,6 +76,7 @@ type Cluster struct {
 	script   []Fault
 	next     int
 	metaFail int
+	metaDown bool
 	Logs     map[string][]Appended
 	Requests []ReqLog
 	MetaReqs int
@@ -152,8 +156,8 @@ func (c *Cluster) metadata(r *sarama.MetadataRequest) interface{} {
 	for _, b := range c.Brokers {
 		resp.AddBroker(b.Addr(), b.BrokerID())
 	}
-	fail := c.metaFail > 0
-	if fail {
+	fail := c.metaFail > 0 || c.metaDown
+	if c.metaFail > 0 {
 		c.metaFail--
 	}
 	for t, n := range c.topics {
@@ -193,6 +197,9 @@ func (c *Cluster) produce(broker int, r *sarama.ProduceRequest) interface{} {
 	c.Requests = append(c.Requests, ReqLog{Index: idx, Broker: c.Brokers[broker].BrokerID(), Fault: f, Batches: batches})
 	if f.MetaFail > 0 {
 		c.metaFail = f.MetaFail
+	}
+	if f.MetaDown {
+		c.metaDown = true
 	}
 	resp := &sarama.ProduceResponse{Version: r.Version}
 	sel := -1
@@ -254,4 +261,11 @@ func (c *Cluster) Snapshot() ([]ReqLog, map[string][]Appended) {
 		logs[k] = append([]Appended(nil), v...)
 	}
 	return append([]ReqLog(nil), c.Requests...), logs
+}
+
+// MetaUp ends a MetaDown period.
+func (c *Cluster) MetaUp() {
+	c.mu.Lock()
+	c.metaDown = false
+	c.mu.Unlock()
 }
